@@ -106,6 +106,7 @@ type persistentDisc struct {
 	exp    *explore.Explore
 	d      *kdisc.TargetsDiscovery
 	ch     chan map[string][]*targetgroup.Group
+	memo   map[*TG][]*targetgroup.Group
 	ctx    context.Context
 	cancel context.CancelFunc
 }
@@ -164,9 +165,21 @@ func (t *countTransport) RoundTrip(r *http.Request) (*http.Response, error) {
 }
 
 func (p *persistentDisc) round(groups map[string][]TG) error {
+	// like the Prometheus discovery manager, hand over the SAME *Group objects as long as a source has not
+	// changed - and the same objects to every job that shares a provider (jobs with equal SD configs)
+	if p.memo == nil {
+		p.memo = map[*TG][]*targetgroup.Group{}
+	}
 	in := map[string][]*targetgroup.Group{}
 	for j, gs := range groups {
-		in[j] = toPromGroups(gs)
+		if len(gs) == 0 {
+			continue
+		}
+		key := &gs[0]
+		if p.memo[key] == nil {
+			p.memo[key] = toPromGroups(gs)
+		}
+		in[j] = p.memo[key]
 	}
 	select {
 	case p.ch <- in:
@@ -191,6 +204,12 @@ func runC02(w *core.WorkerCtx, idx int) *core.CaseResult {
 	groups := map[string][]TG{}
 	for _, j := range spec.Jobs {
 		groups[j.Name] = GenGroups(r, j.Name)
+	}
+	if len(spec.Jobs) > 1 && r.Intn(3) == 0 {
+		// two jobs with the same service discovery section (blackbox with two modules over one static list,
+		// several role: pod jobs): the discovery manager gives them one provider and the same group objects
+		groups[spec.Jobs[1].Name] = groups[spec.Jobs[0].Name]
+		res.AddStat("cases_with_two_jobs_sharing_discovery_groups", 1)
 	}
 	text := cfggen.Render(spec, cfggen.Style{Indent: 2})
 	res.Sig = fmt.Sprintf("%x", core.HashString(text+fmt.Sprint(groups)))
